@@ -44,6 +44,7 @@ type Ctl struct {
 	// follower bookkeeping and whom it included; OnLeaderEntry is called (under
 	// the controller lock) for each
 	LeaderEntries map[string]int
+	FolOffers     map[string]int // table -> entries a follower has handed to its pipeline
 	// FollowTables: number of tables a follower subscribes before it may start following
 	FollowTables int
 	timerHits    map[*time.Timer]int
@@ -85,6 +86,7 @@ func (c *Ctl) ResetScenario() {
 	c.holdStep = map[string]bool{}
 	c.HoldScan = map[string]bool{}
 	c.LeaderEntries = map[string]int{}
+	c.FolOffers = map[string]int{}
 	c.ResetIncarnation()
 }
 
@@ -192,6 +194,14 @@ func (c *Ctl) Hook(ev string, kv ...interface{}) {
 			inc := append([]common.FollowerID(nil), kv[3].([]common.FollowerID)...)
 			c.OnLeaderEntry(table, offKey(kv[1].(wal.Offset)), kv[2].([]byte), inc)
 		}
+		c.cond.Broadcast()
+		c.mu.Unlock()
+		return
+	case "fol.offer":
+		// a follower has handed an entry to this table's pipeline (the table's goroutine
+		// has taken it off the channel but may not have announced it with tbl.read yet)
+		c.mu.Lock()
+		c.FolOffers[table]++
 		c.cond.Broadcast()
 		c.mu.Unlock()
 		return
